@@ -1,19 +1,89 @@
-import OsuProofs.SourceTerms
-import Mathlib.Analysis.SpecialFunctions.Trigonometric.Basic
+import OsuProofs.RotationST
 /-
 C09 — source terms, roughness and stress are invariant under joint rotation.
+
+Uniform grid of `N` directions `θ_j = θ0 + j·360/N` (any `N`, any `θ0`), spectrum rotated by `k`
+bins (`rotE k E j = E (j - k)`), wind direction increased by `k·360/N` degrees; mirror image for
+grids starting at 0.  The statements are about the kernels of `OsuModel/SourceTerms.lean` written
+as functions of the bin index (the bridge lemma ties the list form to the function form).
 -/
 namespace Osu.Props.C09
-open Osu.ST Osu.Solv
+open Osu.ST Osu.Rot
 
-/-- the floor function of the angle wraps at ℝ -/
-noncomputable def rfloor (x : ℝ) : ℝ := (⌊x⌋ : ℝ)
+variable {N : ℕ} [NeZero N]
 
 /-- the mutual-angle wrap `(x + π) % 2π − π` does not change the cosine -/
-theorem cos_wrapPi (x : ℝ) : Real.cos (wrapPi rfloor x) = Real.cos x := by
-  simp only [wrapPi, modTwoPi, twoPi, Solv.two, Transc.pi, rfloor]
-  have : x + Real.pi - ((2 : ℕ) : ℝ) * Real.pi * (⌊(x + Real.pi) / (((2 : ℕ) : ℝ) * Real.pi)⌋ : ℝ) - Real.pi
-      = x - (⌊(x + Real.pi) / (((2 : ℕ) : ℝ) * Real.pi)⌋ : ℝ) * (2 * Real.pi) := by push_cast; ring
-  rw [this, Real.cos_sub_int_mul_two_pi]
+theorem cos_wrap (x : ℝ) : Real.cos (wrapPi rfloor x) = Real.cos x := cos_wrapPi x
+
+/-- wind input: a joint rotation by `k` bins rotates the field by `k` bins, for every `k` and `N` -/
+theorem wind_input_rotates (p : GenP ℝ) (kk om ustar z0 θ0 wdir : ℝ) (k : Fin N) (E : Fin N → ℝ) :
+    inputRow p kk om ustar z0 θ0 (wdir + (k : ℕ) * dθ N) (rotE k E) = rotE k (inputRow p kk om ustar z0 θ0 wdir E) :=
+  inputRow_rot p kk om ustar z0 θ0 wdir k E
+
+/-- the list form used by the model and the driver is that function -/
+theorem wind_input_model_row (p : GenP ℝ) (kk om ustar z0 θ0 wdir : ℝ) (E : Fin N → ℝ) :
+    List.zipWith (fun e c => st4Rate p kk om ustar z0 c e) (List.ofFn E)
+      (cosMutual rfloor (List.ofFn fun j : Fin N => deg2rad (theta θ0 j)) wdir)
+      = List.ofFn (inputRow p kk om ustar z0 θ0 wdir E) :=
+  st4_row_bridge p kk om ustar z0 θ0 wdir E
+
+/-- mirror image -/
+theorem wind_input_mirrors (p : GenP ℝ) (kk om ustar z0 wdir : ℝ) (E : Fin N → ℝ) :
+    inputRow p kk om ustar z0 0 (-wdir) (mirE E) = mirE (inputRow p kk om ustar z0 0 wdir E) :=
+  inputRow_mirror p kk om ustar z0 wdir E
+
+/-- ST4 band-integrated saturation (the ±width integral over neighbouring directions) rotates with
+the spectrum: it is a circular convolution whose kernel depends on the index difference only -/
+theorem saturation_rotates (bp : BrkP ℝ) (θ0 : ℝ) (k : Fin N) (sat : Fin N → ℝ) :
+    bandRow bp θ0 (rotE k sat) = rotE k (bandRow bp θ0 sat) := bandRow_rot bp θ0 k sat
+
+/-- the cumulative-breaking strength (wave-speed vector differences) rotates with the exceedance
+field, for every pair of frequencies -/
+theorem cumulative_strength_rotates (θ0 c c' w : ℝ) (k : Fin N) (X : Fin N → ℝ) :
+    strengthRow θ0 c c' w (rotE k X) = rotE k (strengthRow θ0 c c' w X) := strengthRow_rot θ0 c c' w k X
+
+/-- a bin-wise function of a rotated field is the rotated bin-wise function (saturation and
+cumulative entries given their rotated saturation / strength; the ST6 terms, whose per-frequency
+coefficients are direction integrals) -/
+theorem binwise_rotates (f : ℝ → ℝ → ℝ) (k : Fin N) (E B : Fin N → ℝ) :
+    (fun j => f (rotE k E j) (rotE k B j)) = rotE k (fun j => f (E j) (B j)) := rfl
+
+/-- direction integrals with the (uniform) bin width are unchanged: ST6's saturation spectrum and
+every bulk rate -/
+theorem direction_integral_invariant (k : Fin N) (x : Fin N → ℝ) (w : ℝ) :
+    ∑ j, rotE k x j * w = ∑ j, x j * w := dirIntegral_rot k x w
+
+/-- the stress vector (east, north) of a rotated wind-input row is the rotated vector -/
+theorem stress_vector_rotates (θ0 : ℝ) (k : Fin N) (S : Fin N → ℝ) :
+    stressEast θ0 (rotE k S) = cosd ((k : ℕ) * dθ N) * stressEast θ0 S - sind ((k : ℕ) * dθ N) * stressNorth θ0 S ∧
+    stressNorth θ0 (rotE k S) = sind ((k : ℕ) * dθ N) * stressEast θ0 S + cosd ((k : ℕ) * dθ N) * stressNorth θ0 S :=
+  stress_rot θ0 k S
+
+/-- … so the stress magnitude is unchanged … -/
+theorem stress_magnitude_invariant (e n c s : ℝ) (h : c ^ 2 + s ^ 2 = 1) :
+    Real.sqrt ((s * e + c * n) * (s * e + c * n) + (c * e - s * n) * (c * e - s * n)) = Real.sqrt (n * n + e * e) :=
+  magnitude_rot e n c s h
+
+/-- … and the stress direction (likewise the dissipation-weighted wave direction and the wind
+direction derived from it) shifts by the rotation angle, modulo a full turn -/
+theorem stress_direction_shifts (e n φ : ℝ) (h : e ≠ 0 ∨ n ≠ 0) :
+    dirAngle (Real.cos φ * e - Real.sin φ * n) (Real.sin φ * e + Real.cos φ * n) = dirAngle e n + (φ : Real.Angle) :=
+  direction_rot e n φ h
+
+/-- mirror image of the stress vector: east kept, north negated, so the direction is negated -/
+theorem stress_vector_mirrors (S : Fin N → ℝ) :
+    stressEast 0 (mirE S) = stressEast 0 S ∧ stressNorth 0 (mirE S) = -stressNorth 0 S := stress_mirror S
+
+theorem direction_mirrors (e n : ℝ) (h : e ≠ 0 ∨ n ≠ 0) : dirAngle e (-n) = -dirAngle e n := dirAngle_mirror e n h
+
+/-- roughness length and estimated wind speed are a solver applied to a balance function; when
+the balance function is the same before and after the rotation (it only contains rotation
+invariant quantities: bulk rates, stress magnitude), so is the solver's result -/
+theorem solver_congruence (F G : ℝ → ℝ) (h : ∀ x, F x = G x) (cfg : Solv.NRConfig ℝ) (guess : ℝ) :
+    Solv.newtonRaphson F cfg guess = Solv.newtonRaphson G cfg guess := by
+  have : F = G := funext h
+  rw [this]
+
+example : rotE (N := 4) 1 (fun j => (j : ℕ)) 0 = 3 := by simp [rotE]
 
 end Osu.Props.C09
